@@ -352,3 +352,6 @@ def run(ctx):
     if not getattr(ctx, "nested", False):
         from rules import C02 as _c02s
         _c02s.run(shared.Proxy(ctx, ("C02-g",), "C13-d"))
+        # what holds before the peer's SETTINGS arrive (and for identifiers they omit) are the protocol defaults (C10-c)
+        from rules import C10 as _c10s
+        _c10s.run(shared.Proxy(ctx, ("C10-c",), "C13-a", only=("core::default::Default>::default",)))
